@@ -58,3 +58,21 @@ for be in BACKS:
             dict(name='TVAL-nr', pat='nr_regions :: value', rep='nr_regions', min=1, max=1),
             dict(name='self-arg', pat='no_transition ( self , e , self ,', rep='no_transition ( self , e , self ,', min=1, max=1)]),
         loops={0: '__CPROVER_assigns(i, g_nt_next)\n__CPROVER_loop_invariant(0 <= i && i <= nr_regions && g_nt_next == i)\n__CPROVER_decreases(nr_regions - i)'}, replay=['kleene']))
+FCT = 'back/favor_compile_time.hpp'
+UNITS.append(Unit('back.favor_compile_time.process_any_event_helper', ['C18', 'C07', 'C06', 'C13'], 'back',
+    [Part(FCT, ['struct process_any_event_helper'], 'process_any_event_helper ( HandledEnum & res_ , Fsm * self_ , any any_event_ )', init_list=True,
+          xform=back_xform([], refparams=(), rewrites=[dict(name='REF-member-init', pat='res = res_ ;', rep='', min=1, max=1)])),
+     Part(FCT, ['struct process_any_event_helper'], 'void operator ( ) ( wrap < Event > const & )',
+          xform=back_xform(['any_cast'], refparams=(), rewrites=[
+              dict(name='TCALL-any-ptr', pat='any_cast ( Event , & any_event ) != 0', rep='any_holds ( Event , any_event )', min=0, max=1),
+              dict(name='TCALL-any-val', pat='any_cast ( Event , any_event )', rep='any_cast_to ( Event , any_event )', min=0, max=1),
+              dict(name='member-call', pat='self -> process_event_internal (', rep='process_event_internal_typed ( self ,', min=0, max=1)]))],
+    'HandledEnum process_any_event(fsm_t* self, event_t any_event)', 'kleene.spec.h', defines=['UNIT_ANY_HELPER=1'],
+    # the generated fsmname::process_any_event (a preprocessor macro body, not extractable): res = HANDLED_FALSE; for_each<all_events>(helper(res,this,any_event)); return res;
+    compose='HandledEnum res = HANDLED_FALSE; fsm_t* const self_ = self; const event_t any_event_ = any_event; _Bool finished;\n{ @0 }\n'
+            'for (type_t Event = 0; Event != g_n; ++Event)\n'
+            '__CPROVER_assigns(Event, res, finished, g_pcalls, g_pret)\n'
+            '__CPROVER_loop_invariant(0 <= Event && Event <= g_n)\n'
+            '__CPROVER_loop_invariant(finished == (0 <= g_dyn_type && g_dyn_type < Event) && g_pcalls == (finished ? 1 : 0) && (int)res == (finished ? g_pret : HANDLED_FALSE))\n'
+            '__CPROVER_decreases(g_n - Event)\n{ @1 }\nreturn res;',
+    force_loop_contracts=True, replay=['kleene']))
